@@ -485,7 +485,19 @@ class Fragment:
             op = mm.end() - 1
             cl = s.match_close(op)
             inner = self.text[op + 1:cl]
-            # drop a trailing message argument `, "..."`
+            # drop a trailing message argument `, "..."`: keep the text up to the first top-level comma
+            depth = 0
+            for q in range(op + 1, cl):
+                if not s.mask[q]:
+                    continue
+                ch = self.text[q]
+                if ch in '([{':
+                    depth += 1
+                elif ch in ')]}':
+                    depth -= 1
+                elif ch == ',' and depth == 0:
+                    inner = self.text[op + 1:q]
+                    break
             j = cl + 1
             while j < len(self.text) and self.text[j] in ' \t':
                 j += 1
